@@ -266,6 +266,22 @@ AXIS_POS = {"unsqueeze": 0, "squeeze": 0, "flatten": 0, "chunk": 1, "split": 1, 
 RANK_BOUND = {"mm": "2-D operands", "addmm": "2-D operands", "mv": "a matrix and a vector", "addmv": "a matrix and a vector", "bmm": "3-D operands", "baddbmm": "3-D operands", "addbmm": "3-D operands"}
 
 
+def r11_value_free_control(repo: Repo, rep):
+    R = rep.rule("R-C08-11", "the control flow of a model's forward depends on shapes, spaces and configuration only - never on tensor VALUES (any / all / item / max .. of input-derived data)", floor=8,
+                 why="a block skipped when `not x.any()` holds for the WHOLE batch makes the output of a row depend on the other rows it is evaluated with (and drops the bias path of the skipped block)")
+    from .c03 import control_tests, value_tests_in
+    for mname, m in sorted(repo.modules.items()):
+        if not mname.startswith("torchphysics.models.") or ".deeponet" in mname:
+            continue
+        for ci in m.classes.values():
+            fi = ci.methods.get("forward")
+            if fi is None:
+                continue
+            rep.saw(fi)
+            bad = value_tests_in(control_tests(fi.node))
+            rep.check(R, not bad, fi.site(), fi.fq, "conditions of forward read no tensor values", f"value-dependent tests: {sorted(set(bad))[:3]}", f"value tests {sorted(set(bad))[:3]}")
+
+
 def r8_feature_axis_from_the_end(repo: Repo, rep):
     R = rep.rule("R-C08-8", "models that accept several batch axes (and their building-block layers) address tensor axes of input-derived values from the end only "
                  "(dim=-1 for the features), never by a non-negative position", floor=8,
@@ -346,6 +362,11 @@ def _axes_decide(rep, R6, ci, fi, mix):
             return None
 
         def size_role(n, e):
+            t = dump(n)
+            if t in ("self.input_space.dim", f"{pname}.space.dim", "len(self.input_space)"):
+                return "C"  # the feature axis of the sanitised input
+            if t in ("self.output_space.dim",):
+                return "O"
             return None
         ev = AxesEval(atom, size_role)
         for p in paths(fi.node):
@@ -791,6 +812,7 @@ def r10_parallel_spaces(repo: Repo, rep):
 
 
 def run(repo: Repo, rep):
+    r11_value_free_control(repo, rep)
     r9_input_untouched(repo, rep)
     r10_parallel_spaces(repo, rep)
     from .generic import g_arg_constructor_parameters
